@@ -9,8 +9,9 @@ check fired.  The scratch copy is removed afterwards.
     python3 tools/mutants.py C04 C07    # only these properties
     python3 tools/mutants.py -k name    # only mutants whose name contains 'name'
 
-A mutant is (property, name, file below src/, old text, new text).  'old' must
-occur exactly once in the file, so a refactoring that moves the code makes the
+A mutant is (property, name, file below src/, old text, new text), or, for
+two cooperating sites, (property, name, [(file, old, new), ...], None, None).
+'old' must occur exactly once in the file, so a refactoring that moves the code makes the
 mutant report STALE instead of silently testing nothing.
 """
 
@@ -29,13 +30,15 @@ def run_one(prop, name, relpath, old, new, tier="quick"):
     work = tempfile.mkdtemp(prefix="vf-mut-")
     try:
         shutil.copytree("/repo/src", os.path.join(work, "src"))
-        path = os.path.join(work, "src", relpath)
-        with open(path) as fh:
-            text = fh.read()
-        if text.count(old) != 1:
-            return "STALE(%d matches)" % text.count(old), ""
-        with open(path, "w") as fh:
-            fh.write(text.replace(old, new))
+        edits = relpath if old is None else [(relpath, old, new)]
+        for rel, o, n in edits:
+            path = os.path.join(work, "src", rel)
+            with open(path) as fh:
+                text = fh.read()
+            if text.count(o) != 1:
+                return "STALE(%d matches of %r)" % (text.count(o), o[:40]), ""
+            with open(path, "w") as fh:
+                fh.write(text.replace(o, n))
         env = dict(os.environ, VERIF_REPO=work, VERIF_TIER=tier, VERIF_NO_EVIDENCE="1")
         proc = subprocess.run(
             ["/venv/bin/python", "-m", "vf.check", prop],
